@@ -436,16 +436,59 @@ def rule_t2(ctx):
     f = ctx.p.get_function(CORE_REL, "check_type")
     r.analysed(f)
     bad = []
+    unknown = []
     n = 0
+    VALUE_INFER = {"np.asarray", "np.array", "np.asanyarray",
+                   "np.result_type", "np.min_scalar_type", "np.obj2sctype",
+                   "np.common_type", "np.atleast_1d", "np.dtype", "type",
+                   "np.can_cast", "np.promote_types", "np.ravel",
+                   "np.squeeze", "np.stack", "np.concatenate"}
+
+    def scan(expr, name, owner, depth=0):
+        """calls inside expr that take `name` by value"""
+        for c in ast.walk(expr):
+            if not isinstance(c, ast.Call):
+                continue
+            idx = [i for i, a in enumerate(c.args)
+                   if isinstance(a, ast.Name) and a.id == name]
+            kws = [k.arg for k in c.keywords if k.arg
+                   and isinstance(k.value, ast.Name) and k.value.id == name]
+            if not idx and not kws:
+                continue
+            fn = dotted(c.func)
+            if fn in VALUE_INFER:
+                yield ("bad", c)
+                continue
+            g = None
+            if isinstance(c.func, ast.Name):
+                try:
+                    g = ctx.p.get_function(CORE_REL, c.func.id)
+                except AnalysisError:
+                    g = None
+            if g is None or depth >= 2:
+                if fn.endswith("is_linalg_type") or fn in (
+                        "isinstance", "hasattr", "getattr"):
+                    continue
+                yield ("unknown", c)
+                continue
+            r.analysed(g)
+            params = [g.params[i] for i in idx if i < len(g.params)] + kws
+            for pn in params:
+                for x in ast.walk(g.node):
+                    if isinstance(x, ast.Return) and x.value is not None:
+                        yield from scan(x.value, pn, g, depth + 1)
+                    if isinstance(x, ast.Assign):
+                        yield from scan(x.value, pn, g, depth + 1)
     for st in ast.walk(f.node):
         if isinstance(st, ast.Assign) and any(
                 dotted(t) == "dtype" for t in st.targets):
             n += 1
-            for c in ast.walk(st.value):
-                if isinstance(c, ast.Call) and any(
-                        isinstance(a, ast.Name) and a.id == "like"
-                        for a in c.args):
-                    bad.append((st, c))
+            for kind, c in scan(st.value, "like", f):
+                (bad if kind == "bad" else unknown).append((st, c))
+    for st, c in unknown:
+        r.note("T2", loc(f, st), norm_stmt(st)[:120],
+               f"`{dotted(c)[:60]}` receives `like`; the callee is not a "
+               "function of utils/core.py the rule can read (not judged)")
     if not bad:
         r.ok("T2", "check_type", loc(f, f.node), "",
              f"{n} assignment(s) to dtype; none computed from the value of "
